@@ -195,7 +195,7 @@ def frame_roles(F):
     return roles
 
 
-def frame_contracts(ctx, rep):
+def frame_contracts(ctx, rep, rule='R12.2'):
     """R12.2: pushframe saves the return address in the frame being left, pushes a frame (entry, base) and makes (entry, base)
     current; popframe drops the top frame, cuts the stack at ITS base and restores ip/bp from the frame below."""
     F = ctx.facts()
@@ -254,7 +254,7 @@ def frame_contracts(ctx, rep):
             if len(push) != 1 or not okpush:
                 ok = False
                 why.append('exactly one Frame(entry, base) must be pushed')
-    rep.ob(ok, 'R12.2', pfn.path, 'contract', '; '.join(why) or 'stores the current ip into the frame being left, pushes Frame(ip, base), sets ip and bp', pfn.loc())
+    rep.ob(ok, rule, pfn.path, 'contract', '; '.join(why) or 'stores the current ip into the frame being left, pushes Frame(ip, base), sets ip and bp', pfn.loc())
     ctx.__dict__['_pushframe_form'] = form if ok else None
     pop = F.fn('vm::VM::popframe')
     ps = [p for p in AbsInt(F, pop).run() if p.exit == 'return']
@@ -278,7 +278,7 @@ def frame_contracts(ctx, rep):
                 if not (isinstance(nv, tuple) and nv and nv[0] == 'field' and nv[2] == roles[role] and 'last(' in show(nv[1]) and 'pop(' not in show(nv[1])):
                     ok = False
                     why.append('%s is not restored from the %s of the new last frame: %s' % (cur[reg][1], roles[role], show(nv)[:80] if nv else None))
-    rep.ob(ok, 'R12.2', pop.path, 'contract', '; '.join(why) or 'frames.pop(); stack.truncate(popped.base); ip/bp restored from the new last frame', pop.loc())
+    rep.ob(ok, rule, pop.path, 'contract', '; '.join(why) or 'frames.pop(); stack.truncate(popped.base); ip/bp restored from the new last frame', pop.loc())
 
 
 def call_trip_value(call):
